@@ -15,6 +15,10 @@ func init() {
 			// history independence: what a tagged use registers must not change a later untagged use
 			rulePendingKey(c)
 			ruleAppendTarget(c)
+			ruleRegistryKey(c)
+			// Marshal(buf, v) = buf + Marshal(nil, v): what an encoder appends is what it sizes
+			ruleSizeLaw(c)
+			ruleFrame(c)
 		},
 	})
 }
